@@ -155,6 +155,11 @@ func runSeq(c *fw.Ctx, idx int, r *fw.Rand) {
 	}
 	maxLines := r.Range(6, 45)
 	for n := 0; n < maxLines && !s.over && !s.failed; n++ {
+		if n > 1 && r.Chance(1, 60) {
+			c.Count("idle_timeout_between_commands", 1)
+			s.idleTimeout()
+			break
+		}
 		l := s.next()
 		if l.kind == "close" {
 			break
@@ -208,6 +213,30 @@ func (s *sess) finish() {
 		s.fail("after-session:"+key, "after the session ended without a completing transaction: "+what)
 	}
 	s.judged++
+}
+
+// idleTimeout makes the session's pending read fail with a deadline error (the configured idle
+// timeout, without waiting for it) and then judges like any other unfinished ending: at most one
+// reply, the session ends, and nothing is stored since the last completed transaction.
+func (s *sess) idleTimeout() {
+	if _, ok := s.ss.Q.WaitIdle(s.ss.Watchdog); !ok {
+		s.c.Hang("smtp-no-quiescence", "session neither idle nor closed before the injected idle timeout", "")
+		s.failed = true
+		return
+	}
+	s.ss.Q.Take()
+	s.ss.Q.FireReadTimeout()
+	if !s.ss.WaitEnd() {
+		// A server may also stay in its command loop after an idle timeout; then the client closes.
+		s.c.Count("session_continues_after_idle_timeout", 1)
+	}
+	out := s.ss.Q.Take()
+	reps, mal := sut.ParseSMTPReplies(out)
+	if mal != "" || len(reps) > 1 {
+		s.fail("multiple-replies:idle-timeout", fmt.Sprintf("%d replies (malformed %q) after the read deadline expired: %v", len(reps), mal, replyStrings(reps)))
+		return
+	}
+	s.finish()
 }
 
 // play sends one line, checks the reply count and shape, and advances the automaton.
@@ -417,6 +446,15 @@ func (s *sess) dataPhase() {
 		s.ss.Q.Send(block[:k])
 		c.Count("closed_inside_data", 1)
 		s.finish()
+		return
+	}
+	if r.Chance(1, 12) {
+		// The server's idle timeout expires inside the data block (injected logically): the
+		// block was never completed, so nothing may be stored; at most one reply, session ends.
+		k := r.Intn(len(block))
+		s.ss.Q.Send(block[:k])
+		c.Count("idle_timeout_inside_data", 1)
+		s.idleTimeout()
 		return
 	}
 	// One to three chunks cut at arbitrary byte offsets; only the last may be answered.
